@@ -91,6 +91,17 @@ CHECKS["C01"] = dict(
     design_ref="6/C01",
     technique="TLA+ model (Episode.tla) checked by TLC incl. liveness + TLC schedules replayed on real environments + TLC trace validation of the step pipeline",
 )
+CHECKS["C03"] = dict(
+    category="exploration",
+    text="Pair.tla is a self-composition comparator (the model adds no state space of its own - said plainly): the same declared inputs (scenario, seed, action "
+    "sequence, reset points) are executed in separate interpreter processes under different ambient profiles - PYTHONHASHSEED 0..3, a second process later, wall clock "
+    "frozen with/without a microsecond part, short/long `secrets`-generated identifiers, logging fully on/off - and re-seeded twice within one environment; TLC validates "
+    "every (base, variant) pair position by position against PairTrace.tla and names the first field that differs (observation, reward, flags, per-agent action, "
+    "parameters, response status, response data, reward). Scenarios: shipped stochastic scenarios (data_manipulation; thorough: UC7 TAP001/TAP003, scheduled directory) "
+    "and generated amplifiers (nmap scans over a /29; links whose bandwidth admits two/eight echo frames only if each is two bytes shorter).",
+    design_ref="6/C03",
+    technique="paired runs under controlled ambient profiles in separate processes, judged field-wise by a TLA+ trace specification (Pair.tla) in TLC",
+)
 
 REASON_TODO = "check not built yet in this session (planned, see DESIGN.md 10); nothing is claimed for it"
 
